@@ -50,7 +50,7 @@ pub mod l0 {
     use std::{any::Any, fmt::Debug};
     /// element storage of Eager/Lazy arrays and the copy buffer of `extended`: fixed capacity
     /// (prelude/fixed.rs) — a growing heap Vec of symbolic length exhausts CBMC's memory
-    pub type Vec<T> = crate::prelude::fixed::FixedVec<T, 10>;
+    pub type Vec<T> = crate::prelude::fixed::BoxVec<T, 10>;
 
     //@extract crates/jrsonnet-evaluator/src/arr/spec.rs :: trait ArrayLike
     //@extract crates/jrsonnet-evaluator/src/arr/mod.rs :: trait ArrayLikeIter
